@@ -4,7 +4,9 @@
   exactly these statements; Props/C03 compares them with the current source (`gen_*_eq_ref`).  A difference
   means the function was edited: review the edit against the model, then update this file.
 
-  reviewed 2026-09-25 on 4afdd26:
+  reviewed 2026-09-25 on 4afdd26; ContainsObject / equalFieldIdentifiers re-reviewed on 330acd2 (field references and
+  column numbers still go through SearchIndex; a computed expression is found again by its formatted text, letter
+  case ignored except inside string literals - evalColumn asks only for references and analytic functions):
   * FieldIndex takes `view` / the trimmed `column` from the reference, `idx := -1` directly before the loop;
   * SearchIndex sends column numbers to FieldNumberIndex, everything else to FieldIndex; ContainsObject resolves
     field references through SearchIndex; Header.Update sets the view name of every field and clears its aliases;
@@ -57,7 +59,7 @@ def containsObjectBody : List String :=
    "if(f.IsFromTable||len(f.Identifier)<1){",
    "continue",
    "}",
-   "if(!strings.EqualFold(f.Identifier,column)){",
+   "if(!equalFieldIdentifiers(f.Identifier,column)){",
    "continue",
    "}",
    "idx=i",
@@ -445,5 +447,64 @@ def fixProjection : List String :=
    "}",
    "hfields:=NewEmptyHeader(len(view.selectFields))",
    "colNumber:=0"]
+
+/-- `equalFieldIdentifiers` (how `ContainsObject` compares the formatted text of computed expressions) -/
+def equalFieldIdentifiersBody : List String :=
+  ["if(a==b){",
+   "returntrue",
+   "}",
+   "if(!strings.EqualFold(a,b)){",
+   "returnfalse",
+   "}",
+   "ra,rb:=[]rune(a),[]rune(b)",
+   "if(len(ra)!=len(rb)){",
+   "returntrue",
+   "}",
+   "varquoterune=0",
+   "escaped:=false",
+   "for(i:range:ra){",
+   "switch(){",
+   "case(quote==0):",
+   "if(ra[i]=='\\''||ra[i]=='`'){",
+   "quote=ra[i]",
+   "}",
+   "case(quote=='\\''&&ra[i]!=rb[i]):",
+   "returnfalse",
+   "case(escaped):",
+   "escaped=false",
+   "case(ra[i]=='\\\\'):",
+   "escaped=true",
+   "case(ra[i]==quote):",
+   "quote=0",
+   "}",
+   "}",
+   "returntrue"]
+
+/-- `View.evalColumn`: a select / ORDER BY item is looked up in the header only when it is a reference or an analytic function; everything else is calculated per record; then the alias is recorded -/
+def evalColumnBody : List String :=
+  ["varidx=-1",
+   "varok=false",
+   "typeswitch(obj.(type)){",
+   "case(parser.FieldReference,parser.ColumnNumber,parser.AnalyticFunction):",
+   "idx,ok=view.Header.ContainsObject(obj)",
+   "typeswitch(obj.(type)){",
+   "case(parser.FieldReference,parser.ColumnNumber):",
+   "if(ok&&view.isGrouped&&view.Header[idx].IsFromTable&&!view.Header[idx].IsGroupKey){",
+   "returnidx,NewFieldNotGroupKeyError(obj)",
+   "}",
+   "}",
+   "}",
+   "if(!ok){",
+   "if(err:=EvaluateSequentially(ctx,scope,view,func(seqScope*ReferenceScope,rIdxint)error{primary,e:=Evaluate(ctx,seqScope,obj)ife!=nil{returne}view.RecordSet[rIdx]=append(view.RecordSet[rIdx],NewCell(primary))returnnil});err!=nil){",
+   "returnidx,err",
+   "}",
+   "view.Header,idx=AddHeaderField(view.Header,FormatFieldIdentifier(obj),FormatFieldLabel(obj),alias)",
+   "}",
+   "if(0<len(alias)){",
+   "if(!strings.EqualFold(view.Header[idx].Column,alias)&&!InStrSliceWithCaseInsensitive(alias,view.Header[idx].Aliases)){",
+   "view.Header[idx].Aliases=append(view.Header[idx].Aliases,alias)",
+   "}",
+   "}",
+   "returnidx,nil"]
 
 end Csvq.Ref
